@@ -969,6 +969,70 @@ impl Described for Level {
     }
 }
 
+// keys whose byte length exceeds their character count, as the longest keys of their container
+src_text! { INTL_SRC,
+#[derive(Deserr, Debug)]
+#[deserr(deny_unknown_fields)]
+pub struct Intl {
+    #[deserr(rename = "größe")]
+    pub size: u8,
+    #[deserr(rename = "名前")]
+    pub name: String,
+    pub id: u8,
+    #[deserr(default)]
+    pub ab: Option<bool>,
+}
+}
+impl ToModel for Intl {
+    fn to_model(&self) -> M {
+        M::Struct {
+            name: "Intl".into(),
+            fields: vec![
+                ("size".into(), self.size.to_model()),
+                ("name".into(), self.name.to_model()),
+                ("id".into(), self.id.to_model()),
+                ("ab".into(), self.ab.to_model()),
+            ],
+        }
+    }
+}
+impl Described for Intl {
+    fn ty() -> Ty {
+        let mut ab = fld("ab", "ab", <Option<bool>>::ty());
+        ab.default = Some(M::None);
+        Ty::Struct(Arc::new(StructTy {
+            name: "Intl".into(),
+            fields: vec![fld("size", "größe", <u8>::ty()), fld("name", "名前", Ty::Str), fld("id", "id", <u8>::ty()), ab],
+            deny: Deny::Default,
+            validate: None,
+        }))
+    }
+}
+
+src_text! { INTL_OPEN_SRC,
+#[derive(Deserr, Debug)]
+pub struct IntlOpen {
+    #[deserr(rename = "é")]
+    pub e: u8,
+    pub x: u8,
+}
+}
+impl ToModel for IntlOpen {
+    fn to_model(&self) -> M {
+        M::Struct { name: "IntlOpen".into(), fields: vec![("e".into(), self.e.to_model()), ("x".into(), self.x.to_model())] }
+    }
+}
+impl Described for IntlOpen {
+    fn ty() -> Ty {
+        Ty::Struct(Arc::new(StructTy {
+            name: "IntlOpen".into(),
+            fields: vec![fld("e", "é", <u8>::ty()), fld("x", "x", <u8>::ty())],
+            deny: Deny::No,
+            validate: None,
+        }))
+    }
+}
+
 pub fn hand_entries() -> Vec<(Entry, bool)> {
     // (entry, modelled by the reference interpreter)
     vec![
@@ -991,6 +1055,9 @@ pub fn hand_entries() -> Vec<(Entry, bool)> {
         (Entry::generic::<(Strict, Vec<Camel>)>("(Strict, Vec<Camel>)", "", "hand"), true),
         (Entry::generic::<Vec<Search>>("Vec<Search>", "", "hand"), false),
         (Entry::generic::<Mixed>("Mixed", MIXED_SRC, "hand"), true),
+        (Entry::generic::<Intl>("Intl", INTL_SRC, "hand"), true),
+        (Entry::generic::<IntlOpen>("IntlOpen", INTL_OPEN_SRC, "hand"), true),
+        (Entry::generic::<Vec<Intl>>("Vec<Intl>", "", "hand"), true),
         (Entry::generic::<Wide>("Wide", WIDE_SRC, "hand"), true),
         (Entry::generic::<Judged>("Judged", JUDGED_SRC, "hand"), true),
         (Entry::generic::<Vec<Judged>>("Vec<Judged>", JUDGED_SRC, "hand"), true),
